@@ -381,11 +381,16 @@ impl<'a> Ex<'a> {
     }
 }
 
-const SUBCOMMANDS: [&str; 9] = ["nk", "align", "map", "distance", "merge-first", "merge-second", "delete", "weed", "lo"];
+// (the subcommands that take --threads also with 2 threads: another thread count may mean another way of reading the file)
+const SUBCOMMANDS: [&str; 13] = ["nk", "align", "map", "distance", "merge-first", "merge-second", "delete", "weed", "lo", "align-threads2", "map-threads2", "distance-threads2", "lo-threads2"];
 
 fn subcommand_argv(which: &str, victim: &str, first_name: &str) -> Vec<String> {
     let v = victim.to_string();
     match which {
+        "align-threads2" => vec!["align".into(), v, "--threads".into(), "2".into()],
+        "map-threads2" => vec!["map".into(), "ref.fa".into(), v, "--threads".into(), "2".into()],
+        "distance-threads2" => vec!["distance".into(), v, "--threads".into(), "2".into()],
+        "lo-threads2" => vec!["lo".into(), v, "lo_out".into(), "--threads".into(), "2".into()],
         "nk" => vec!["nk".into(), v, "--full-info".into()],
         "align" => vec!["align".into(), v],
         "map" => vec!["map".into(), "ref.fa".into(), v],
